@@ -42,7 +42,8 @@ def coq_event2(e):
     if k == "e":
         return "E2End %d %s %s" % (e["i"], cbool(e.get("ok", False)), t)
     if k == "x":
-        return ("E2Refused %d %s" % (e["i"], t)) if e["i"] >= 0 else ("E2HRefused %s %s" % (HNAME[-1 - e["i"]], t))
+        # a refused handler command has no counterpart in the model (since fix 246fa0b): the trace is then rejected
+        return ("E2Refused %d %s" % (e["i"], t)) if e["i"] >= 0 else None
     if k == "k":
         return ("E2Kill %d %s" % (e["i"], t)) if e["i"] >= 0 else None
     if k == "sc":
@@ -266,11 +267,18 @@ def py_mon_C05(c):
     stops = stop_times(c)
     if stops:
         t_ret = stops[0][1]
-        # a Kill that reached the executor before its command had started is lost: the command then runs unsignalled
+        # a Kill that reaches the executor before its command has started must be delivered when it starts (fix fc2d5bb):
+        # the command then ends at once, killed
         for p, e in enumerate(evs):
             if e["e"] == "k" and e["i"] >= 0 and e["i"] not in open_at(c, p):
-                later = [q for q in evs[p + 1:] if q["e"] == "s" and q["i"] == e["i"]]
-                if later and not c["steps"][e["i"]].get("repeat"):
+                s = c["steps"][e["i"]]
+                if s.get("repeat") or (s.get("ignore") and e.get("sig") != SIGKILL):
+                    continue
+                nxt = next((q for q in range(p + 1, len(evs)) if evs[q]["e"] == "s" and evs[q]["i"] == e["i"]), None)
+                if nxt is None:
+                    continue
+                end = next((evs[q] for q in range(nxt + 1, len(evs)) if evs[q]["e"] == "e" and evs[q]["i"] == e["i"]), None)
+                if end is None or end.get("ok", False) or end["t"] - evs[nxt]["t"] > 2500:
                     return ("the stop signal reached step %d before its command had started and was lost: the command "
                             "started afterwards and ran unsignalled" % e["i"], {"kind": "signal-before-start-lost"})
         for p, e in enumerate(evs):
@@ -289,8 +297,8 @@ def py_mon_C05(c):
         all_ok = all(x in (4, 5) for x in fin)
         stop_before_end = stops[0][0] <= max([e["t"] for e in evs if e["e"] in ("s", "e")], default=-1) or not evs
         if not all_ok and c["status"] != 3 and not (c.get("timeout") and any(e["t"] >= deadline(c) for e in evs)):
-            hs_t = next((e["t"] for e in evs if e["e"] == "hs"), None)
-            if hs_t is None or stops[0][1] < hs_t:
+            last_step_t = max([e["t"] for e in evs if e["e"] in ("s", "e")], default=-1)
+            if stops[0][1] < last_step_t:   # a stop after the last step event may have come after the outcome was decided
                 return ("the run was stopped with steps %s but is reported '%s'" % ([ST.get(x) for x in fin], ST.get(c["status"], "?")),
                         {"kind": "outcome"})
     if c.get("timeout"):
@@ -417,6 +425,52 @@ def evaluate2(ctx, pid, tool, cases, tag):
     return accepted
 
 
+def agent_stop_monitor(c):
+    """C05 on REAL processes at agent level (Agent.Run + Agent.Signal, command executor): the wall-clock clause"""
+    if c.get("infra"):
+        return None
+    if c.get("hung"):
+        return "agent run (%s) did not end after the stop request" % c["sub"]
+    if c["sub"] != "killbeforerun" and c["status"] != "canceled":
+        return "agent run (%s) stopped while its step was executing is reported '%s'" % (c["sub"], c["status"])
+    if c["sub"] == "plain" and c["stop_to_end_ms"] > 2500:
+        return "a plain `sleep` step took %d ms to end after the stop request" % c["stop_to_end_ms"]
+    if c["sub"] == "group" and c["child_alive"]:
+        return "the forked child of a step survived the stop request (signal not sent to the process group)"
+    if c["sub"] == "group" and c["stop_to_end_ms"] > 2500:
+        return "a forking step took %d ms to end after the stop request" % c["stop_to_end_ms"]
+    if c["sub"] == "killbeforerun" and (c["stop_to_end_ms"] > 1500 or not c["err"]):
+        return ("the command executor lost a signal that arrived before its process existed: Run took %d ms (error %r)"
+                % (c["stop_to_end_ms"], c["err"]))
+    if c["sub"] == "ignoreterm":
+        # MaxCleanUpTime, plus the 3 s granularity of agent.signal's wait loop, plus tolerance; and well before the
+        # command's own end
+        bound = c["max_cleanup_s"] * 1000 + 3000 + 2500
+        if c["stop_to_end_ms"] > min(bound, c["sleep_s"] * 1000 - 1500):
+            return ("a step ignoring SIGTERM was not force-killed: the run ended %d ms after the stop request "
+                    "(MaxCleanUpTime %d s; the command's own end: %d s)" % (c["stop_to_end_ms"], c["max_cleanup_s"], c["sleep_s"]))
+    return None
+
+
+def agent_stop_part(ctx, tool):
+    work = os.path.join(ctx.scratch, "agentstop-work")
+    os.makedirs(work, exist_ok=True)
+    p = os.path.join(ctx.scratch, "agentstop.jsonl")
+    rc, out, dt = vlib.run_tool(tool, [p, "agentstop", work], timeout=120)
+    cases = vlib.read_jsonl(p) if os.path.exists(p) else []
+    if rc != 0 or not cases:
+        ctx.fail("correspondence", "agent-level stop driver failed", {"log": out[-1500:]})
+        return
+    for c in cases:
+        if c.get("infra"):
+            ctx.notes.append("agentstop case %s not observed: %s" % (c["sub"], c["infra"]))
+        why = agent_stop_monitor(c)
+        if why is not None:
+            ctx.fail("monitor", "C05: " + why, c, cls={"kind": "agent-" + c["sub"]})
+    ctx.cov["agent_real_process_runs"] = [{k: c[k] for k in ("sub", "max_cleanup_s", "sleep_s", "stop_to_end_ms", "status", "child_alive")} for c in cases]
+    ctx.cov["agent_real_process_s"] = round(dt, 1)
+
+
 def run_family2(ctx, pid, replay_cases=None):
     extra = ["Sched/Check2.vo"]
     from props import agent_lib
@@ -463,6 +517,8 @@ def run_family2(ctx, pid, replay_cases=None):
                     ctx.fail("monitor", "C04: " + why, c, cls={"kind": "agent-" + c["class"], "sub": c["sub"]})
             agent_lib.check_model(ctx, acases, tag="c04_agent")
             ctx.cov["agent_precondition_runs"] = agent_lib.summary(acases)
+    if pid == "C05" and replay_cases is None:
+        agent_stop_part(ctx, tool)
     ctx.cov["trusted_base"] += [
         "Sched model (coq/Sched/Model.v): goroutine scheduling = arbitrary interleaving of the mutex-delimited sections of "
         "scheduler.go/node.go; Signal = flag + one atomic section per node; node teardown does not fail; the executor refuses an "
